@@ -1,7 +1,9 @@
 /-
 C19 — Walk, transform and paths address exactly the members of a value.
 
-Property theorems only; helper lemmas live in `CtyModel/Lemmas/Walk*.lean`.
+Property theorems only; helper lemmas live in `CtyModel/Lemmas/Walk*.lean`, `d19*.lean` and
+`d19b*.lean` (second deepening: `Enter` replacement, replace below a set, paths through
+sets, `Enter` / `Exit` nesting, PathSet with empty operands and over null / compound keys).
 
 Every statement is about the transliterations that the correspondence harness
 (`harness/c19.go`, `c19ps.go`) diffs against /repo on every run:
@@ -31,6 +33,13 @@ import CtyModel.Lemmas.WalkReplace
 import CtyModel.Lemmas.WalkMarks
 import CtyModel.Lemmas.WalkRawEq
 import CtyModel.Lemmas.PathFnsTie
+import CtyModel.Lemmas.d19bVisits
+import CtyModel.Lemmas.d19bSetPaths
+import CtyModel.Lemmas.d19bPathSet
+import CtyModel.Lemmas.d19bKeys
+import CtyModel.Lemmas.d19bBracket
+import CtyModel.Lemmas.d19bKeysSets
+import CtyModel.Props.C03
 namespace CtyModel
 namespace C19
 open Walk
@@ -214,7 +223,7 @@ input by stability of the sort behind set iteration.  That case is compared with
 the implementation on every run (generator `c19TiedSet`, ops `walk.trans`,
 `val.rawequals`, predicate `transform-id`) but is not covered by this theorem. -/
 theorem transform_id_partial {X : SetOracle} (hX : IterPerm X) {σ : Sched} (hσ : SchedOk σ)
-    (v : Value) (hg : Good X v) :
+    (v : Value) (hg : Walk.Good X v) :
     ∃ log, transform X σ idCb v = (log, .ok v) ∧ (exits log).Perm (walk X descend v).1 := by
   refine ⟨_, transform_id_eq hX hσ v hg, ?_⟩
   rw [walk_eq_preorder hX]
@@ -226,7 +235,7 @@ theorem transform_id_partial {X : SetOracle} (hX : IterPerm X) {σ : Sched} (hσ
 is the transliteration of `Value.RawEquals`; capsule values, which compare by Go
 pointer identity, are outside the model). -/
 theorem transform_id_rawEquals_partial {X : SetOracle} (hX : IterPerm X) {σ : Sched} (hσ : SchedOk σ)
-    (v : Value) (hg : Good X v) (hc : Ty.hasCapsule v.ty = false) :
+    (v : Value) (hg : Walk.Good X v) (hc : Ty.hasCapsule v.ty = false) :
     ∃ log r, transform X σ idCb v = (log, .ok r) ∧ Value.rawEquals X r v = .ok true ∧
       (exits log).Perm (walk X descend v).1 := by
   obtain ⟨log, h1, h2⟩ := transform_id_partial hX hσ v hg
@@ -238,7 +247,7 @@ theorem transform_id_rawEquals_partial {X : SetOracle} (hX : IterPerm X) {σ : S
 
 /-- the result does not depend on the schedule (the callback log does, by a permutation) -/
 theorem transform_id_schedule_indep {X : SetOracle} (hX : IterPerm X) {σ σ' : Sched}
-    (hσ : SchedOk σ) (hσ' : SchedOk σ') (v : Value) (hg : Good X v) :
+    (hσ : SchedOk σ) (hσ' : SchedOk σ') (v : Value) (hg : Walk.Good X v) :
     (transform X σ idCb v).2 = (transform X σ' idCb v).2 ∧
       (exits (transform X σ idCb v).1).Perm (exits (transform X σ' idCb v).1) := by
   obtain ⟨l1, h1, p1⟩ := transform_id_partial hX hσ v hg
@@ -258,7 +267,7 @@ returns `replaceAt X v r0 x`: the value in which every container on the way to
 the changed member.  In that result the member at `r0` is `x`, and every
 position that is neither above nor below `r0` holds the member it held. -/
 theorem transform_replace_one {X : SetOracle} (hX : IterPerm X) {σ : Sched} (hσ : SchedOk σ)
-    (cb : TCb) (v x n : Value) (r0 : Pos) (hg : Good X v)
+    (cb : TCb) (v x n : Value) (r0 : Pos) (hg : Walk.Good X v)
     (hn : nodeAt X v r0 = some n) (hns : noSetAt X v r0 = true) (hx : x.ty = n.ty)
     (hrep : ∀ q0, pathAt X v r0 = some q0 → ∀ log v', cb log q0 v' = .ok x)
     (hid : ∀ r q, r ≠ r0 → pathAt X v r = some q → ∀ log v', cb log q v' = .ok v') :
@@ -282,7 +291,7 @@ one kind of entry: the path and the marks of each position that carries marks;
 and `MarkWithPaths` of that value with that list returns the original value —
 marks included, at every depth. -/
 theorem unmark_remark_roundtrip {X : SetOracle} (hX : IterPerm X) {σ σ' : Sched}
-    (hσ : SchedOk σ) (hσ' : SchedOk σ') (v : Value) (hg : Good X v) :
+    (hσ : SchedOk σ) (hσ' : SchedOk σ') (v : Value) (hg : Walk.Good X v) :
     ∃ pvm, unmarkDeepWithPaths X σ v = .ok (v.unmarkDeep, pvm) ∧
       v.unmarkDeep.containsMarked = false ∧
       (∀ q ms, (q, ms) ∈ pvm ↔
@@ -313,8 +322,8 @@ strings — marked or not, since 9ae0f30 drops the marks before the comparison i
 read: `Equivalent` is reflexive, symmetric and transitive, and equivalent paths
 hash alike (the hash writes the same bytes: attribute names, `#` for every index
 step).  A key and the same key with marks are equivalent (`keyEq` looks under the
-marker).  Unknown keys remain outside (next theorem); so do null keys and keys
-of compound type (no `Equals`-equivalence theorem for them yet). -/
+marker).  Unknown keys remain outside (next theorem); null keys and keys of compound
+type are covered by `pathset_rules_lawful_wide` (slice d19b). -/
 theorem pathset_rules_lawful : PathSet.goodRules.Lawful := PathSet.goodRules_lawful
 
 /-- Reflexivity fails for a path with an unknown key (`Equals` of an unknown with
@@ -410,7 +419,7 @@ def X1 : SetOracle :=
 
 example : IterPerm X1 := iterPerm_storage _
 example : Ty.hasCapsule sample.ty = false := by decide
-example : Good X1 sample :=
+example : Walk.Good X1 sample :=
   ⟨by decide, by decide, by
     simp only [sample, SetsStable, SetsStableZip, SetsStableAll, and_true, true_and]
     exact ⟨rfl, rfl⟩⟩
@@ -424,7 +433,7 @@ def sampleCb : TCb := fun _ p w =>
   | [.index ⟨_, .n (.fin _ 1 0 _)⟩] => .ok ⟨.string, .s "z"⟩
   | _ => .ok w
 
-example : Good X0 sampleList ∧ nodeAt X0 sampleList [1] = some ⟨.string, .s "b"⟩ ∧
+example : Walk.Good X0 sampleList ∧ nodeAt X0 sampleList [1] = some ⟨.string, .s "b"⟩ ∧
     noSetAt X0 sampleList [1] = true :=
   ⟨⟨by decide, by decide, by simp [sampleList, SetsStable, SetsStableAll]⟩, rfl, by decide⟩
 example : ∀ q0, pathAt X0 sampleList [1] = some q0 → ∀ log v', sampleCb log q0 v' = .ok ⟨.string, .s "z"⟩ := by
@@ -488,7 +497,7 @@ harness rule `(at q0 (ret x))` (`Driver/HWalk.decTRules`, `harness/c19.go` predi
 that callback meets both hypotheses, so the conclusion of `transform_replace_one`
 holds outright. -/
 theorem transform_replace_at_path {X : SetOracle} (hX : IterPerm X) {σ : Sched} (hσ : SchedOk σ)
-    (v x n : Value) (r0 : Pos) (q0 : Path) (hg : Good X v)
+    (v x n : Value) (r0 : Pos) (q0 : Path) (hg : Walk.Good X v)
     (hn : nodeAt X v r0 = some n) (hq : pathAt X v r0 = some q0) (hns : noSetAt X v r0 = true)
     (hx : x.ty = n.ty) :
     ∃ log, transform X σ (atPathCb q0 x) v = (log, .ok (replaceAt X v r0 x)) ∧
@@ -827,6 +836,460 @@ theorem walk_apply_roundtrip_generated {X : SetOracle} (hX : IterPerm X) (root :
   rw [generated_walk_eq] at hv
   obtain ⟨pos, h1, h2, h3⟩ := walk_paths_lead_back_generated hX root hs p n hv
   exact ⟨pos, h1, h2, fun h => let ⟨a, ha, hu, _⟩ := h3 h; ⟨a, ha, hu⟩⟩
+
+/-! ## d19b — second deepening (Enter replacement, below sets, fresh PathSet results, paths through sets) -/
+
+/-- **`TransformWithTransformer` traverses what `Enter` RETURNED** (harness predicate
+`transform-enter-replace`; cty/walk.go `transform` re-binds `val` to the result of
+`t.Enter` before the null / unknown test and the type switch).  Let `Enter` answer
+`x` — any good value of the member's type, of ANY null / unknown status: a known
+container for a null member, a null for a known container … — at the path `q0` of
+position `r0` (outside sets) and the value it is given everywhere else, `Exit` the
+identity (`enterAtT q0 x`: the denotation of the harness rule pair
+`(tcb ((at q0 (ret x))) ())`), with enough fuel for the replacement.  Then for every
+schedule:
+
+* the transform succeeds and returns `replaceAt X v r0 x`: at `r0` it holds `x`, every
+  position neither above nor below `r0` holds what it held;
+* the events are `pre ++ Enter(q0, n) :: seg ++ post`: `Enter` at the position was
+  handed the ORIGINAL member `n`;
+* `seg` is what is traversed afterwards up to the matching `Exit`: its `Enter` calls are
+  exactly `Walk`'s visits of the PROPER MEMBERS OF `x` under `q0`, each once (none when
+  `x` is null or unknown, whatever `n` was), its `Exit` calls exactly `Walk`'s visits of
+  `x` and its members (what `Exit` receives is the rebuilt value, here the member
+  itself), and it ends with `Exit(q0, x)`;
+* no other event of the run (`pre`, `post`) has a path at or below `q0`: the members of
+  the original `n` are never entered, the members of `x` exactly once. -/
+theorem transform_enter_replace {X : SetOracle} (hX : IterPerm X) {σ : Sched} (hσ : SchedOk σ)
+    (v x n : Value) (r0 : Pos) (q0 : Path) (hg : Walk.Good X v) (hgx : Walk.Good X x)
+    (hn : nodeAt X v r0 = some n) (hq : pathAt X v r0 = some q0) (hns : noSetAt X v r0 = true)
+    (hx : x.ty = n.ty) (fuel : Nat) (hf1 : v.v.depth < fuel) (hf2 : r0.length + x.v.depth < fuel) :
+    ∃ pre seg post,
+      transformWith X σ (enterAtT q0 x) fuel v =
+        (pre ++ .enter q0 n :: seg ++ post, .ok (replaceAt X v r0 x)) ∧
+      (enters seg).Perm (((walk X descend x).1.map (under q0)).tail) ∧
+      (exits seg).Perm ((walk X descend x).1.map (under q0)) ∧
+      seg.getLast? = some (.exit q0 x) ∧
+      (∀ e, e ∈ pre ++ post → ¬ q0 <+: e.path) ∧
+      nodeAt X (replaceAt X v r0 x) r0 = some x ∧
+      ∀ r, ¬ r0 <+: r → ¬ r <+: r0 → nodeAt X (replaceAt X v r0 x) r = nodeAt X v r := by
+  obtain ⟨pre, seg, post, f', hf', hseg, hout, hrun⟩ :=
+    transformWith_enterAt hX hσ v x n r0 q0 hg hgx hn hq hns hx fuel hf1 hf2
+  obtain ⟨h1, h2, h3⟩ := idEvs_tail_visits hX hσ x hgx.shaped q0 f' hf'
+  rw [← hseg] at h1 h2 h3
+  exact ⟨pre, seg, post, hrun, h1, h2, h3, hout,
+    nodeAt_replaceAt_self hX r0 v x n hg.shaped hn hns hx,
+    nodeAt_replaceAt_other hX r0 v x n hg.shaped hn hns hx⟩
+
+/-- a null list member replaced on entry by a two-element list (descended into), and a
+known list replaced by a null (a leaf): the hypotheses are met and this is what runs -/
+def enterSample : Value :=
+  ⟨.object ["a", "b"] [.list .string, .number] [false, false], .smap ["a", "b"] [.null, .n (.fin false 1 0 64)]⟩
+def enterRepl : Value := ⟨.list .string, .seq [.s "x", .marked ["m"] (.s "y")]⟩
+
+example : Walk.Good X0 enterSample ∧ Walk.Good X0 enterRepl ∧
+    nodeAt X0 enterSample [0] = some ⟨.list .string, .null⟩ ∧
+    pathAt X0 enterSample [0] = some [.getAttr "a"] ∧ noSetAt X0 enterSample [0] = true ∧
+    enterSample.v.depth < 5 ∧ [0].length + enterRepl.v.depth < 5 :=
+  ⟨⟨by decide, by decide, by simp [enterSample, SetsStable, SetsStableZip]⟩,
+   ⟨by decide, by decide, by simp [enterRepl, SetsStable, SetsStableAll]⟩, rfl, rfl, by decide, by decide, by decide⟩
+example :
+    let r := transformWith X0 Sched.sorted (enterAtT [.getAttr "a"] enterRepl) 5 enterSample
+    r.2 = .ok ⟨.object ["a", "b"] [.list .string, .number] [false, false],
+       .smap ["a", "b"] [.seq [.s "x", .marked ["m"] (.s "y")], .n (.fin false 1 0 64)]⟩ ∧
+    enters r.1 = [([], enterSample), ([.getAttr "a"], ⟨.list .string, .null⟩),
+      ([.getAttr "a", .index (Value.intVal 0)], ⟨.string, .s "x"⟩),
+      ([.getAttr "a", .index (Value.intVal 1)], ⟨.string, .marked ["m"] (.s "y")⟩),
+      ([.getAttr "b"], ⟨.number, .n (.fin false 1 0 64)⟩)] ∧
+    exits r.1 = [([.getAttr "a", .index (Value.intVal 0)], ⟨.string, .s "x"⟩),
+      ([.getAttr "a", .index (Value.intVal 1)], ⟨.string, .marked ["m"] (.s "y")⟩),
+      ([.getAttr "a"], enterRepl), ([.getAttr "b"], ⟨.number, .n (.fin false 1 0 64)⟩),
+      ([], replaceAt X0 enterSample [0] enterRepl)] := by decide
+/-- a known list replaced on entry by a null: its elements are never entered -/
+def enterSample2 : Value := ⟨.tuple [.list .string], .seq [.seq [.s "a", .s "b"]]⟩
+example :
+    let r := transformWith X0 Sched.sorted (enterAtT [.index (Value.intVal 0)] ⟨.list .string, .null⟩) 5 enterSample2
+    r.2 = .ok ⟨.tuple [.list .string], .seq [.null]⟩ ∧
+    enters r.1 = [([], enterSample2), ([.index (Value.intVal 0)], ⟨.list .string, .seq [.s "a", .s "b"]⟩)] ∧
+    exits r.1 = [([.index (Value.intVal 0)], ⟨.list .string, .null⟩), ([], ⟨.tuple [.list .string], .seq [.null]⟩)] := by
+  decide
+
+/-- **`Enter` / `Exit` are properly nested — for EVERY transformer, value, schedule and
+fuel.**  Whatever the two methods do (replace members by values of any shape or status,
+fail, panic, depend on the calls made so far), the calls of `TransformWithTransformer`
+form a bracket sequence (`brk` runs them against the stack of open `Enter` paths):
+`Exit(p, ·)` is only ever called for the most recent `Enter(p, ·)` still open, with the
+same path; a run that succeeds leaves nothing open; a run that fails stops with the
+`Enter`s on the way to the failure open (a failing `Enter` stays open, a failing `Exit`
+has closed its `Enter`). -/
+theorem transform_calls_properly_nested (X : SetOracle) (σ : Sched) (t : Transformer) (fuel : Nat)
+    (v : Value) :
+    ∃ open_, brk (transformWith X σ t fuel v).1 [] = some open_ ∧
+      ((transformWith X σ t fuel v).2.isOk = true → open_ = []) := by
+  obtain ⟨evs, h1, hb⟩ := transformFuel_brk X σ t fuel [] [] v
+  obtain ⟨st', h2, h3, _⟩ := hb []
+  simp only [List.nil_append] at h1
+  exact ⟨st', by simp only [transformWith, h1, h2], fun h => h3 h⟩
+
+/-- an `Exit` that fails inside a list: the element's bracket is closed, the list's and
+nothing else is open -/
+example :
+    let t : Transformer := ⟨idCb, fun _ p w => if p = [.index (Value.intVal 1)] then .err "no" else .ok w⟩
+    brk (transformWith X0 Sched.sorted t 5 sampleList).1 [] = some [[]] ∧
+      (transformWith X0 Sched.sorted t 5 sampleList).2 = .err "no" := by decide
+
+/-- **`Enter` / `Exit` bracket every successful identity traversal**: with any transformer
+that is the identity on the paths of `v` (`IdOnT`), each position is entered once and
+exited once — the `Enter` calls and the `Exit` calls are both permutations of `Walk`'s
+visits — and `Exit` receives the rebuilt value, which is the member itself. -/
+theorem transform_identity_enter_exit_paired {X : SetOracle} (hX : IterPerm X) {σ : Sched}
+    (hσ : SchedOk σ) (t : Transformer) (v : Value) (hg : Walk.Good X v) (hid : IdOnT t X [] v)
+    (fuel : Nat) (hf : v.v.depth < fuel) :
+    ∃ log, transformWith X σ t fuel v = (log, .ok v) ∧
+      (enters log).Perm (walk X descend v).1 ∧ (exits log).Perm (walk X descend v).1 := by
+  have hu : ∀ l : List Visit, l.map (under []) = l := by
+    intro l; induction l <;> simp_all [under]
+  have hw := walk_under_eq_preVis hX v [] fuel hf
+  rw [hu] at hw
+  refine ⟨idEvs X σ fuel [] v, ?_, ?_, ?_⟩
+  · have := transformFuel_idOnT hX hσ t fuel v hf hg [] hid []
+    simpa [transformWith] using this
+  · rw [hw]; exact enters_idEvs_perm hX hσ fuel v hg.shaped []
+  · rw [hw]; exact exits_idEvs_perm hX hσ fuel v hg.shaped []
+
+/-- **Replace one member BELOW A SET** (harness reference `c19RefReplace`, predicate
+`transform-replace` / `set-member-not-replaced`).  `v` is a set value (marked or not);
+the callback returns `x` at the path of position `i :: r` — inside the set's `i`-th
+member in iteration order, not passing a further set — and what it is given at the path
+of every other position.  Then the outcome of `Transform` is EXACTLY what `SetVal` makes
+of the transformed members — the `i`-th member with its position `r` replaced, every
+other member itself, in iteration order — with the marks of the members hoisted by
+`SetVal` (`Walk.setVal`) and the set's own marks re-applied: success, or the panic of
+`SetVal` on inconsistent element types.  Nothing of the original set is reused
+(`seeded/C19-transform-set-reuse-when-last-member-unchanged` returned the input set
+when the member iterated last was unchanged). -/
+theorem transform_replace_below_set {X : SetOracle} (hX : IterPerm X) {σ : Sched} (hσ : SchedOk σ)
+    (cb : TCb) (v x n : Value) (e : Ty) (i : Nat) (r : Pos) (q0' : Path) (ci : PathStep × Value)
+    (hg : Walk.Good X v) (hty : v.ty = .set e) (hci : (kids X v)[i]? = some ci)
+    (hn : nodeAt X ci.2 r = some n) (hq : pathAt X ci.2 r = some q0') (hns : noSetAt X ci.2 r = true)
+    (hx : x.ty = n.ty)
+    (hrep : ∀ log v', cb log (ci.1 :: q0') v' = .ok x)
+    (hid : ∀ r' q, r' ≠ i :: r → pathAt X v r' = some q → ∀ log v', cb log q v' = .ok v') :
+    (transform X σ cb v).2 =
+      (setVal X (((kids X v).map (·.2)).set i (replaceAt X ci.2 r x))).map (·.withMarks v.marks) := by
+  obtain ⟨evs, h⟩ := transformFuel_replace_below_set hX hσ cb x (v.v.depth + 1) v (by omega) hg e hty i r
+    [] q0' ci n hci hn hq hns hx (by simpa using hrep) (by simpa using hid)
+  simp only [transform, transformWith, h []]
+
+/-- **…with the callback the correspondence runs** (`atPathCb`, the harness rule
+`(at q0 (ret x))`): when no two members of the set are the same value — so that their
+steps, the members themselves, tell them apart — both hypotheses about the callback
+hold, and the conclusion of `transform_replace_below_set` holds outright. -/
+theorem transform_replace_below_set_at_path {X : SetOracle} (hX : IterPerm X) {σ : Sched} (hσ : SchedOk σ)
+    (v x n : Value) (e : Ty) (i : Nat) (r : Pos) (q0' : Path) (ci : PathStep × Value)
+    (hg : Walk.Good X v) (hty : v.ty = .set e) (hnd : ((kids X v).map (·.1)).Nodup)
+    (hci : (kids X v)[i]? = some ci)
+    (hn : nodeAt X ci.2 r = some n) (hq : pathAt X ci.2 r = some q0') (hns : noSetAt X ci.2 r = true)
+    (hx : x.ty = n.ty) :
+    (transform X σ (atPathCb (ci.1 :: q0') x) v).2 =
+      (setVal X (((kids X v).map (·.2)).set i (replaceAt X ci.2 r x))).map (·.withMarks v.marks) := by
+  obtain ⟨h1, h2⟩ := atPathCb_hyps_below_set hX v x hg.shaped hnd i r q0' ci hci hq hns
+  exact transform_replace_below_set hX hσ _ v x n e i r q0' ci hg hty hci hn hq hns hx h1 h2
+
+/-- a marked set of two strings; the callback replaces the member `"p"` -/
+def setSample : Value := ⟨.set .string, .marked ["ms"] (.sset [5, 7] [.s "p", .s "q"])⟩
+def setCb : TCb := atPathCb [.index ⟨.string, .s "p"⟩] ⟨.string, .marked ["mx"] (.s "r")⟩
+
+example : ((kids X1 setSample).map (fun c : PathStep × Value => c.1)).Nodup := by decide
+
+
+example : Walk.Good X1 setSample ∧ (kids X1 setSample)[0]? = some (.index ⟨.string, .s "p"⟩, ⟨.string, .s "p"⟩) ∧
+    nodeAt X1 ⟨.string, .s "p"⟩ [] = some ⟨.string, .s "p"⟩ ∧ pathAt X1 ⟨.string, .s "p"⟩ [] = some [] :=
+  ⟨⟨by decide, by decide, by
+      simp only [setSample, SetsStable, SetsStableAll, and_true]
+      exact ⟨rfl, rfl⟩⟩, rfl, rfl, rfl⟩
+example : ∀ log v', setCb log [.index ⟨.string, .s "p"⟩] v' = .ok ⟨.string, .marked ["mx"] (.s "r")⟩ := by
+  intro log v'; simp [setCb, atPathCb]
+example : ∀ r' q, r' ≠ [0] → pathAt X1 setSample r' = some q → ∀ log v', setCb log q v' = .ok v' := by
+  intro r' q hne hq log v'
+  have hq0 : q ≠ [.index ⟨.string, .s "p"⟩] := by
+    intro h
+    subst h
+    match r', hne, hq with
+    | [], _, hq => cases hq
+    | [0], hne, _ => exact hne rfl
+    | [1], _, hq => exact absurd hq (by decide)
+    | (k + 2) :: _, _, hq => simp [pathAt, kids, setSample, Value.isNull, Value.isKnown, Payload.isNull,
+        Payload.isKnown, Payload.unmark1, Value.unmark, children, X1, SetOracle.storage, setKids] at hq
+    | 0 :: _ :: _, _, hq => simp [pathAt, kids, setSample, Value.isNull, Value.isKnown, Payload.isNull,
+        Payload.isKnown, Payload.unmark1, Value.unmark, children, X1, SetOracle.storage, setKids] at hq
+    | 1 :: _ :: _, _, hq => simp [pathAt, kids, setSample, Value.isNull, Value.isKnown, Payload.isNull,
+        Payload.isKnown, Payload.unmark1, Value.unmark, children, X1, SetOracle.storage, setKids] at hq
+  simp [setCb, atPathCb, hq0]
+/-- the replacement's mark is hoisted to the set, next to the set's own; `"r"` hashes to bucket 0 under `X1` -/
+example : (transform X1 Sched.sorted setCb setSample).2 =
+    .ok ⟨.set .string, .marked ["ms", "mx"] (.sset [0, 7] [.s "r", .s "q"])⟩ := by decide
+
+/-- **…that result holds transformed members only, with their marks hoisted, and is a
+function of WHICH members `SetVal` kept** (C03, slice d03b).  Whatever `SetVal` returned
+for the transformed members `ws` is a set value `sset ids vs` under marks, where every
+member kept is one of the transformed members with its marks removed (none is invented,
+none of the original set is kept unless it was transformed into itself), and the marks
+of the result are exactly the marks found anywhere in the transformed members together
+with the set's own `ms`.  When the element type holds no capsule and `setRules.Less` is
+a strict total order on the members kept (`Payload.lessStrictTotal`, the decidable
+carrier of `C03.set_value_function_of_members`), EVERY set value holding the same
+members — in any bucket layout, built from the members in any order, e.g. by a
+reference that re-runs `SetVal` — iterates identically, is `RawEquals` and has the same
+`Hash`.  This is why the harness may compare the real result with `c19RefReplace` by
+`RawEquals`; for hash-tied members that `Less` does not order the comparison falls
+back to `c19OrderOnly` (recorded under C03). -/
+theorem transform_set_result_function_of_members {X : SetOracle} (ws : List Value) (ms : List String)
+    (r : Value) (h : (setVal X ws).map (·.withMarks ms) = .ok r) :
+    ∃ e ids vs, r.unmark = ⟨.set e, .sset ids vs⟩ ∧ ids.length = vs.length ∧
+      (∀ m ∈ vs, ∃ w ∈ ws, m = w.unmarkDeep.v) ∧
+      (∀ k, k ∈ r.marks ↔ (k ∈ ms ∨ ∃ w ∈ ws, k ∈ w.marksDeep)) ∧
+      (D03b.capFree e = true → D03b.GAll e vs → Payload.lessStrictTotal e vs = true →
+        ∀ (iy : List Int) (ys : List Payload), iy.length = ys.length → vs.Perm ys →
+          Value.setIter e vs = Value.setIter e ys ∧
+          Value.rawEq ⟨.set e, .sset ids vs⟩ ⟨.set e, .sset iy ys⟩ = .ok true ∧
+          Value.hash ⟨.set e, .sset ids vs⟩ = Value.hash ⟨.set e, .sset iy ys⟩) := by
+  cases hs : setVal X ws with
+  | ok s =>
+    rw [hs] at h
+    simp only [Res.map, Res.ok.injEq] at h
+    obtain ⟨e, ids, vs, hu, hl, hmem, hmk⟩ := setVal_members_marks hs
+    refine ⟨e, ids, vs, ?_, hl, hmem, fun k => ?_, fun hc gx ht iy ys ly hp => ?_⟩
+    · rw [← h, PathSet.unmark_withMarks, hu]
+    · rw [← h]
+      simp only [Value.marks, Value.withMarks]
+      rw [marks1_withMarks]
+      have := hmk k
+      simp only [Value.marks] at this
+      rw [this]
+      exact ⟨fun h => h.elim Or.inr Or.inl, fun h => h.elim Or.inr Or.inl⟩
+    · have := C03.set_value_function_of_members e hc ids iy vs ys hl ly gx hp ht
+      exact ⟨this.1, this.2.1, this.2.2.2⟩
+  | err c => rw [hs] at h; cases h
+  | panic w => rw [hs] at h; cases h
+  | unmodelled => rw [hs] at h; cases h
+
+/-! ### paths through sets -/
+
+/-- **A reported path that passes through a set does not apply** — the other half of
+`walk_paths_lead_back`.  For every visit of `Walk` whose position lies below a set,
+`Path.Apply` of the reported path on the root answers with an ERROR (at the first set
+on the way: its step key is the member itself, and `IndexStep.Apply` takes number keys
+on lists / tuples and string keys on maps only): it does not panic and it does not
+return some other member. -/
+theorem walk_paths_through_sets_do_not_apply {X : SetOracle} (hX : IterPerm X) (root : Value)
+    (hs : shapedV root = true) (pos : Pos) (p : Path) (n : Value)
+    (hn : nodeAt X root pos = some n) (hp : pathAt X root pos = some p)
+    (hset : noSetAt X root pos = false) :
+    ∃ c, Path.apply p root = .err c ∧ Generated.PathFns.Path_Apply p root = .err c := by
+  obtain ⟨c, hc⟩ := apply_pathAt_through_set hX pos root root n [] p (Extra.rfl' root) hs hn hp hset
+  exact ⟨c, hc, by rw [generated_path_apply_eq, hc]⟩
+
+/-- …so for EVERY visit the outcome of `Path.Apply` on the reported path is decided: the
+member (plus ancestor marks) outside sets, an error below a set; never a panic -/
+theorem walk_paths_apply_total {X : SetOracle} (hX : IterPerm X) (root : Value)
+    (hs : shapedV root = true) (p : Path) (n : Value) (hv : (p, n) ∈ (walk X descend root).1) :
+    (∃ a, Path.apply p root = .ok a ∧ a.unmark = n.unmark) ∨ (∃ c, Path.apply p root = .err c) := by
+  obtain ⟨pos, h1, h2, h3⟩ := walk_paths_lead_back hX root hs p n hv
+  by_cases hns : noSetAt X root pos = true
+  · obtain ⟨a, ha, hu, _⟩ := h3 hns
+    exact Or.inl ⟨a, ha, hu⟩
+  · obtain ⟨c, hc, _⟩ := walk_paths_through_sets_do_not_apply hX root hs pos p n h1 h2 (by simpa using hns)
+    exact Or.inr ⟨c, hc⟩
+
+example : noSetAt X0 sample [2, 0] = false ∧
+    pathAt X0 sample [2, 0] = some [.getAttr "s", .index ⟨.string, .s "p"⟩] ∧
+    Path.apply [.getAttr "s", .index ⟨.string, .s "p"⟩] sample = .err "not a map type" := by decide
+
+/-! ### the set algebra of `PathSet` with an empty operand -/
+
+/-- **`Union` / `Subtract` with an EMPTY operand** (the case
+`seeded/C19-pathset-union-subtract-empty-operand-aliases-result` short-cut), for any
+lawful rules — in particular `goodRules`: the result satisfies the representation
+invariant and stands for the other operand's set (`s ∪ ∅ = ∅ ∪ s = s ∖ ∅ = s`,
+`∅ ∖ s = ∅`).  That change is an ALIASING change — the operand itself was returned,
+which IS the right set at that moment — so no value-level statement can see it; what
+these clauses and `pathset_algebra_empty_operand_rebuilt` pin is the value and how
+it is built, the sharing is judged by the harness (mutate the result, observe the
+operand) and modelled in C20. -/
+theorem pathset_algebra_empty_operand {α : Type} {R : Rules α} (hR : R.Lawful) (s : SetImpl α) :
+    (SetImpl.Inv R (SetImpl.union R s SetImpl.empty) ∧ SetImpl.Inv R (SetImpl.union R SetImpl.empty s) ∧
+     SetImpl.Inv R (SetImpl.subtract R s SetImpl.empty) ∧ SetImpl.Inv R (SetImpl.subtract R SetImpl.empty s)) ∧
+    (∀ y, SetImpl.abs R (SetImpl.union R s SetImpl.empty) y ↔ SetImpl.abs R s y) ∧
+    (∀ y, SetImpl.abs R (SetImpl.union R SetImpl.empty s) y ↔ SetImpl.abs R s y) ∧
+    (∀ y, SetImpl.abs R (SetImpl.subtract R s SetImpl.empty) y ↔ SetImpl.abs R s y) ∧
+    (∀ y, ¬ SetImpl.abs R (SetImpl.subtract R SetImpl.empty s) y) := by
+  obtain ⟨u1, u2, u3, u4⟩ := PathSet.union_empty_refines hR s
+  obtain ⟨s1, s2, s3, s4⟩ := PathSet.subtract_empty_refines hR s
+  exact ⟨⟨u1.toInv hR, u2.toInv hR, s1.toInv hR, s2.toInv hR⟩, u3, u4, s3, s4⟩
+
+/-- **…and the result is REBUILT, in the source text too**: `PathSet.Union` /
+`Subtract` as translated from cty/path_set.go and cty/set (`Generated.PathFns`), given
+an empty operand, return `fromList` of the other operand's iteration — every member
+`Add`ed again into `NewSet(rules)` — not the operand passed through.  (An early
+`return s` for an empty operand changes the translated definition: this theorem and the
+`rfl` ties `PathFnsTie.union_eq` / `subtract_eq` stop building.) -/
+theorem pathset_algebra_empty_operand_rebuilt (R : Rules Path) (s : SetImpl Path) :
+    Generated.PathFns.PathSet_Union R s SetImpl.empty = .ok (SetImpl.fromList R (SetImpl.iter R s)) ∧
+    Generated.PathFns.PathSet_Union R SetImpl.empty s = .ok (SetImpl.fromList R (SetImpl.iter R s)) ∧
+    Generated.PathFns.PathSet_Subtract R s SetImpl.empty = .ok (SetImpl.fromList R (SetImpl.iter R s)) ∧
+    Generated.PathFns.PathSet_Subtract R SetImpl.empty s = .ok SetImpl.empty := by
+  rw [PathFnsTie.union_eq, PathFnsTie.union_eq, PathFnsTie.subtract_eq, PathFnsTie.subtract_eq,
+    PathSet.union_empty_right_eq, PathSet.union_empty_left_eq, PathSet.subtract_empty_right_eq,
+    PathSet.subtract_empty_left_eq]
+  exact ⟨rfl, rfl, rfl, rfl⟩
+
+/-- **The result is an independent set variable** (what the harness observes after
+`union d a b` / `sub d a b` with `b` empty): in the history semantics of
+`pathset_refines`, `Add` on the result register `d ≠ a` leaves every later answer about
+the operand register `a` what it was.  True by construction of the register model (a
+result is a new value) — stated because it is the specification the aliasing change
+violates; the Go side of it is checked on every run, not proved. -/
+theorem pathset_result_independent_of_operand (R : Rules PathSet.GoodPath) (st : List (SetImpl PathSet.GoodPath))
+    (d a b : Nat) (hda : d ≠ a) (p q : PathSet.GoodPath) (sub : Bool) :
+    (PathSet.psRun R PathSet.prefixesG
+      [.set (if sub then .subtract d a b else .union d a b), .set (.add d p), .set (.has a q)] st).2 =
+      [.none, .none, .bool (SetImpl.has R (SetImpl.getReg st a) q)] := by
+  have hne : ¬ a = d := fun h => hda h.symm
+  cases sub <;>
+    simp [PathSet.psRun, PathSet.psStep, SetImpl.step, SetImpl.getReg_putReg, hne]
+
+example : (PathSet.psRun PathSet.goodRules PathSet.prefixesG
+    [.set (.add 0 ⟨[.index (Value.intVal 1)], rfl⟩), .set (.union 2 0 1), .set (.add 2 ⟨[.index (Value.intVal 2)], rfl⟩),
+     .set (.has 0 ⟨[.index (Value.intVal 2)], rfl⟩), .set (.has 2 ⟨[.index (Value.intVal 1)], rfl⟩)] []).2 =
+    [.none, .none, .none, .bool false, .bool true] := by decide
+
+/-! ### PathSet over null keys and keys of compound type (the old frontier) -/
+
+/-- **`pathSetRules` is lawful on every path whose index keys, marks removed at every
+depth, are wholly known values of a type without set and capsule types**
+(`PathSet.keysWideM`): known numbers and strings (the `keysOk` carrier of
+`pathset_rules_lawful`, contained in this one: `pathset_wide_contains_good`), NULL keys
+of any such type, and keys of COMPOUND type — lists, maps, tuples, objects, nested,
+with nulls inside, marked anywhere or not.  `Equivalent` is reflexive, symmetric and
+transitive there and equivalent paths hash alike.  Two null keys are equivalent whatever
+their types (`Equals` of two nulls is true), a null key is equivalent to no other key,
+keys of different types are otherwise never equivalent, and keys of one type are
+equivalent exactly when `RawEquals` holds (C03 `equals_of_members`).  Still outside:
+unknown keys (the recorded finding) and keys that hold sets or capsules. -/
+theorem pathset_rules_lawful_wide :
+    PathSet.pathRules.LawfulOn (fun p => PathSet.keysWideM p = true) :=
+  PathSet.pathRules_lawfulOn_wideM
+
+theorem pathset_wide_contains_good (p : Path) (h : PathSet.keysOk p = true) :
+    PathSet.keysWideM p = true := PathSet.keysOk_wideM p h
+
+/-- **PathSet refines sets of paths for all histories over those paths** — the statement
+of `pathset_refines` on the wider carrier, for the same two functions
+(`wideRulesM` = `pathRules` on the subtype). -/
+theorem pathset_refines_wide (ops : List (PathSet.PSOp PathSet.WidePathM))
+    (st : List (SetImpl PathSet.WidePathM))
+    (h : ∀ i, SetImpl.Inv PathSet.wideRulesM (SetImpl.getReg st i)) :
+    let R := PathSet.wideRulesM
+    let out := PathSet.psRun R PathSet.prefixesWM ops st
+    (∀ i, SetImpl.Inv R (SetImpl.getReg out.1 i)) ∧
+    SetImpl.absRegs R out.1 = PathSet.psSpecRun R PathSet.prefixesWM ops (SetImpl.absRegs R st) ∧
+    PathSet.PSOutsOk R PathSet.prefixesWM (SetImpl.absRegs R st) ops out.2 := by
+  have hR := PathSet.wideRulesM_lawful
+  have hB : SetImpl.AllInv PathSet.wideRulesM st := fun j => (h j).toB hR
+  refine ⟨fun i => ((PathSet.allInv_psRun hR ops hB) i).toInv hR, ?_⟩
+  exact PathSet.psRun_refines hR ops hB
+
+/-- …`AddAllSteps` adds exactly the non-empty prefixes there too -/
+theorem pathset_addAllSteps_prefixes_wide (x q : PathSet.WidePathM) :
+    q ∈ PathSet.prefixesWM x ↔ ∃ n, 0 < n ∧ n ≤ x.1.length ∧ q.1 = x.1.take n := by
+  simp only [PathSet.prefixesWM, List.mem_map, List.mem_range]
+  constructor
+  · rintro ⟨i, hi, rfl⟩
+    exact ⟨i + 1, by omega, by omega, rfl⟩
+  · rintro ⟨n, h0, hn, hq⟩
+    refine ⟨n - 1, by omega, ?_⟩
+    apply Subtype.ext
+    simp only [hq]
+    congr 1
+    omega
+
+/-- null keys, a list key, a tuple key with a null inside, a marked list key: in the
+carrier; an unknown key and a set key: not -/
+example :
+    PathSet.keysWideM [.index (Value.null .number), .getAttr "a", .index (Value.null (.list .string))] = true ∧
+    PathSet.keysWideM [.index ⟨.list .string, .seq [.s "a"]⟩] = true ∧
+    PathSet.keysWideM [.index ⟨.tuple [.number, .string], .seq [.n (.fin false 1 0 64), .null]⟩] = true ∧
+    PathSet.keysWideM [.index ⟨.list .string, .marked ["m"] (.seq [.marked ["k"] (.s "a")])⟩] = true ∧
+    PathSet.keysWideM [.index (Value.unknown .number)] = false ∧
+    PathSet.keysWideM [.index ⟨.set .string, .sset [1] [.s "a"]⟩] = false := by decide
+/-- two nulls of different types are one key; `[1]` and `[1.0]` inside a tuple are one key;
+a marked list key and its plain twin are one key -/
+example :
+    PathSet.equiv [.index (Value.null .number)] [.index (Value.null .string)] = .ok true ∧
+    PathSet.equiv [.index (Value.null .number)] [.index (Value.intVal 0)] = .ok false ∧
+    PathSet.equiv [.index ⟨.tuple [.number], .seq [.n (.fin false 1 0 64)]⟩]
+      [.index ⟨.tuple [.number], .seq [.n (.fin false 1 0 512)]⟩] = .ok true ∧
+    PathSet.equiv [.index ⟨.list .string, .marked ["m"] (.seq [.marked ["k"] (.s "a")])⟩]
+      [.index ⟨.list .string, .seq [.s "a"]⟩] = .ok true := by decide
+
+/-- **…and on paths whose keys hold SETS**: the carrier of the C03 `Equals` theorems for
+values with sets (`PathSet.keysDeepM`: every key, marks removed at every depth, is a
+well-formed wholly known value of a capsule-free type whose set nodes are well-formed
+— bucket ids the members' hashes, `Less` a strict total order on the members — with
+whole numbers and quotable strings).  `Equivalent` is an equivalence there and
+equivalent paths hash alike, by C03 `equals_equiv_with_sets`.  (The two carriers
+overlap but neither contains the other: this one admits sets and asks the numbers to
+be whole, `keysWideM` admits every number and no set.) -/
+theorem pathset_rules_lawful_with_sets :
+    PathSet.pathRules.LawfulOn (fun p => PathSet.keysDeepM p = true) :=
+  PathSet.pathRules_lawfulOn_deepM
+
+/-- **PathSet refines sets of paths for all histories over paths whose keys hold sets** —
+`pathset_refines` on that carrier, for the same two functions (`deepRulesM` = `pathRules`
+on the subtype) -/
+theorem pathset_refines_with_sets (ops : List (PathSet.PSOp PathSet.DeepPathM))
+    (st : List (SetImpl PathSet.DeepPathM))
+    (h : ∀ i, SetImpl.Inv PathSet.deepRulesM (SetImpl.getReg st i)) :
+    let R := PathSet.deepRulesM
+    let out := PathSet.psRun R PathSet.prefixesDM ops st
+    (∀ i, SetImpl.Inv R (SetImpl.getReg out.1 i)) ∧
+    SetImpl.absRegs R out.1 = PathSet.psSpecRun R PathSet.prefixesDM ops (SetImpl.absRegs R st) ∧
+    PathSet.PSOutsOk R PathSet.prefixesDM (SetImpl.absRegs R st) ops out.2 := by
+  have hR := PathSet.deepRulesM_lawful
+  have hB : SetImpl.AllInv PathSet.deepRulesM st := fun j => (h j).toB hR
+  refine ⟨fun i => ((PathSet.allInv_psRun hR ops hB) i).toInv hR, ?_⟩
+  exact PathSet.psRun_refines hR ops hB
+
+/-- a set of strings and a marked list of sets as keys: in the carrier -/
+example :
+    PathSet.keysDeepM [.index ⟨.set .string,
+      .sset [(CtyModel.ctyRules .string).hash (.s "a"), (CtyModel.ctyRules .string).hash (.s "b")] [.s "a", .s "b"]⟩,
+      .getAttr "x",
+      .index ⟨.list (.set .string), .marked ["m"] (.seq [.sset [] [], .null])⟩] = true := by decide +kernel
+
+open SetImpl SetGo SetFnsTie Generated.SetFns in
+/-- **The set algebra of `PathSet`, tied to the source through BOTH layers** (audit,
+missing theorem (c)): `PathSet.Union` / `Intersection` / `Subtract` /
+`SymmetricDifference` as translated from cty/path_set.go forward to the `SetImpl`
+operation that `psRun` runs and the refinement theorems are about, and that operation
+is what `set.Set.Union` … as translated from cty/set/ops.go compute on the same bucket
+maps — for every Go map iteration order `ord`, any rules that are `SameRules` with
+themselves, operands with ascending buckets (in particular: satisfying the invariant). -/
+theorem pathset_algebra_source_tie (same : Rules Path → Rules Path → Bool) (ord : GoMap Path → GoMap Path)
+    (ho : MapOrder ord) (R : Rules Path) (s o : SetImpl Path) (hs : Asc s.buckets) (hb : Asc o.buckets)
+    (hsame : same R R = true) :
+    (Generated.PathFns.PathSet_Union R s o = .ok (union R s o) ∧
+      Set_Union same ord s.buckets R o.buckets R = .ok ⟨(union R s o).buckets, R⟩) ∧
+    (Generated.PathFns.PathSet_Intersection R s o = .ok (intersection R s o) ∧
+      Set_Intersection same ord s.buckets R o.buckets R = .ok ⟨(intersection R s o).buckets, R⟩) ∧
+    (Generated.PathFns.PathSet_Subtract R s o = .ok (subtract R s o) ∧
+      Set_Subtract same ord s.buckets R o.buckets R = .ok ⟨(subtract R s o).buckets, R⟩) ∧
+    (Generated.PathFns.PathSet_SymmetricDifference R s o = .ok (symmetricDifference R s o) ∧
+      Set_SymmetricDifference same ord s.buckets R o.buckets R = .ok ⟨(symmetricDifference R s o).buckets, R⟩) :=
+  ⟨⟨rfl, Set_Union_eq same ord ho R s o hs hb hsame⟩, ⟨rfl, Set_Intersection_eq same ord ho R s o hs hsame⟩,
+   ⟨rfl, Set_Subtract_eq same ord ho R s o hs hsame⟩,
+   ⟨rfl, Set_SymmetricDifference_eq same ord ho R s o hs hb hsame⟩⟩
 
 end C19
 end CtyModel
